@@ -371,7 +371,8 @@ def item_validator(kind: str):
 # one writer session
 # --------------------------------------------------------------------------
 def session(job) -> List[Dict[str, Any]]:
-    tid, kind, n, sd, with_fail, misuse = job
+    tid, kind, n, sd, with_fail, misuse = job[:6]
+    ctx = job[6] if len(job) > 6 else None     # None | 'normal' | 'exception' | 'interrupt'
     Bid, Card, Contract, Hands, Pair, Player, Suit, TH, Vul = _imp()
     from bridge_env.data_handler.json_handler.parser import JsonParser
     from bridge_env.data_handler.json_handler.writer import (JsonBoardSettingWriter,
@@ -417,7 +418,7 @@ def session(job) -> List[Dict[str, Any]]:
     if misuse:                       # write before open: must raise, emit nothing
         kw, rec = gen(r)
         call('write', lambda: wr.write(**kw), rec)
-    call('open', wr.open)
+    call('open', wr.open if ctx is None else wr.__enter__)
     for k in range(n):
         kw, rec = gen(r)
         if with_fail and k == n // 2:
@@ -428,7 +429,15 @@ def session(job) -> List[Dict[str, Any]]:
                 bad['board_id'] = object()
             call('write_fail', lambda: wr.write(**bad))
         call('write', lambda: wr.write(**kw), rec)
-    call('close', wr.close)
+    if ctx is None:
+        call('close', wr.close)
+    elif ctx == 'normal':
+        call('close', lambda: wr.__exit__(None, None, None))
+    else:
+        # the with-block is left by an exception (of the caller, or an operator
+        # interrupt): the document must still be completed
+        ex = RuntimeError('caller failed') if ctx == 'exception' else KeyboardInterrupt()
+        call('close', lambda: wr.__exit__(type(ex), ex, None))
     text = ''.join(all_chunks)
     doc: Dict[str, Any] = {'tid': tid, 'ev': 'doc', 'json_ok': False, 'schema_ok': False,
                            'nitems': -1}
@@ -492,7 +501,8 @@ def run_into(chk: Check, kinds: List[str], tier: str) -> None:
     for kind in kinds:
         for k in range(nses):
             n = [0, 1, 2, 3, 6][k % 5] if k % 11 else 12
-            jobs.append((f'{kind[0]}{k}', kind, n, seed(), k % 7 == 3 and n > 0, k % 13 == 5))
+            jobs.append((f'{kind[0]}{k}', kind, n, seed(), k % 7 == 3 and n > 0, k % 13 == 5,
+                         [None, 'normal', None, 'exception', None, 'interrupt'][k % 6]))
     events: List[Dict[str, Any]] = []
     for evs in pmap(session, jobs, chunk=4):
         events.extend(evs)
